@@ -238,6 +238,67 @@ pub fn run_resumed(sv: &Value, max: &Value, inputs: &Value, k: usize) -> RunObs 
     r.unwrap_or_else(|m| RunObs { status: "panic", stacks: None, text: m, err: json!({"kind": "panic", "stack": "none"}) })
 }
 
+/// The same evaluation on a RECYCLED state: a scratch state with other stacks, other limits and
+/// other inputs (and some output already printed) is overwritten with `clone_from` and then run.
+/// It is a copy of the template in every respect, so it must evaluate exactly like it.
+pub fn run_recycled(sv: &Value, max: &Value, inputs: &Value, k: usize) -> RunObs {
+    let r = guarded(|| {
+        let template = build_state(sv, max, inputs, k).expect("initial state");
+        let other_sv = json!({"exec": [{"f": "int", "o": "print"}, {"f": "exec", "o": "noop"}], "int": [5, 6], "flt": [], "bool": [true]});
+        let other_max = json!({"exec": 9, "int": 9, "flt": 9, "bool": 9});
+        let other_inputs = json!({"x": {"f": "int", "o": "push", "v": 99}, "zz": {"f": "bool", "o": "push", "v": true}});
+        let scratch = build_state(&other_sv, &other_max, &other_inputs, k + 7).expect("scratch state");
+        let mut scratch = match scratch.run_to_completion() {
+            Ok(s) => s,
+            Err(fe) => fe.into_state(),
+        };
+        scratch.clone_from(&template);
+        match scratch.run_to_completion() {
+            Ok(mut st) => RunObs { status: "ok", stacks: stacks_to_json(&st), text: read_output(&mut st), err: json!({"kind": "none", "stack": "none"}) },
+            Err(fe) => {
+                let dbg = format!("{fe:?}");
+                let mut st = fe.into_state();
+                RunObs { status: "fatal", stacks: stacks_to_json(&st), text: read_output(&mut st), err: fatal_err_json(&dbg) }
+            }
+        }
+    });
+    r.unwrap_or_else(|m| RunObs { status: "panic", stacks: None, text: m, err: json!({"kind": "panic", "stack": "none"}) })
+}
+
+/// What happens when the state handed back inside a fatal error is run AGAIN, compared with running
+/// a freshly built state that has the same stacks, limits and inputs: `None` = they agree (or the
+/// state is outside the number windows), `Some(description)` otherwise. Evaluation is a function of
+/// the state; a state that came out of an aborted run is a state like any other.
+pub fn continue_after_fatal(sv: &Value, max: &Value, inputs: &Value, k: usize) -> Option<String> {
+    let r = guarded(|| -> Option<String> {
+        let state = build_state(sv, max, inputs, k).expect("initial state");
+        let Err(fe) = state.run_to_completion() else { return None };
+        let mut aborted = fe.into_state();
+        let before = read_output(&mut aborted);
+        let proj = stacks_to_json(&aborted)?;
+        let maxes = maxes_to_json(&aborted);
+        let fresh = build_state(&proj, &maxes, inputs, k).ok()?;
+        fn show<E: std::fmt::Debug + IntoState<PushState>>(r: Result<PushState, E>, skip: &str) -> String {
+            match r {
+                Ok(mut st) => { let t = read_output(&mut st); format!("ok {:?} {:?}", stacks_to_json(&st).map(|v| v.to_string()), t.strip_prefix(skip).map(str::to_string)) }
+                Err(fe) => {
+                    let e = fatal_err_json(&format!("{fe:?}"));
+                    let mut st = fe.into_state();
+                    let t = read_output(&mut st);
+                    format!("fatal {e} {:?} {:?}", stacks_to_json(&st).map(|v| v.to_string()), t.strip_prefix(skip).map(str::to_string))
+                }
+            }
+        }
+        let continued = show(aborted.run_to_completion(), &before);
+        let rebuilt = show(fresh.run_to_completion(), "");
+        (continued != rebuilt).then(|| format!("continued: {continued}; the same state built afresh: {rebuilt}"))
+    });
+    match r {
+        Ok(x) => x,
+        Err(m) => Some(format!("panic while continuing the state handed back by a fatal error: {m}")),
+    }
+}
+
 /// Observations of the real interpreter after 0, 1, ..., n steps (runs under step limits
 /// 0..=n from fresh copies of the initial state).  Element k: (status, stacks, tokens printed
 /// by step k, err).  Stops after a fatal/panic, or at the first state that is outside the
@@ -272,6 +333,23 @@ pub fn observe_steps(sv: &Value, max: &Value, inputs: &Value, n: usize) -> StepS
                                   r.text, o.status, o.stacks.as_ref().map(ToString::to_string), o.text),
                     err: json!({"kind": "panic", "stack": "none"}),
                 };
+            }
+        }
+        if k % 3 == 1 && o.status != "panic" {
+            let r = run_recycled(sv, max, inputs, k);
+            if (r.status, &r.stacks, &r.text, &r.err) != (o.status, &o.stacks, &o.text, &o.err) {
+                o = RunObs {
+                    status: "panic",
+                    stacks: None,
+                    text: format!("a scratch state overwritten with clone_from(template) evaluates differently from the template under limit {k}:                                    {} {:?} {:?} instead of {} {:?} {:?}", r.status, r.stacks.map(|v| v.to_string()), r.text, o.status,
+                                  o.stacks.as_ref().map(ToString::to_string), o.text),
+                    err: json!({"kind": "panic", "stack": "none"}),
+                };
+            }
+        }
+        if o.status == "fatal" {
+            if let Some(diff) = continue_after_fatal(sv, max, inputs, k) {
+                o = RunObs { status: "panic", stacks: None, text: diff, err: json!({"kind": "panic", "stack": "none"}) };
             }
         }
         if o.status == "panic" {
